@@ -30,6 +30,7 @@ COUNTERS = {"nontrivial": 0, "paths": 0, "missing_reported": 0, "retries": 0}
 SAMPLES: list = []
 LAST_REASON = ""
 NEWVAL = b"N" * 34
+OTHERKEY = b"\x9a\xbc"      # cfg["after_fail"] == "other": the key of the different write that follows a failed call
 PREKEY = b"\xfe\xdc"       # cfg["pre"]: a first, successful-unless-the-root-is-missing write inside the same batch (its route is the root only)
 OPS = ["get", "exists", "set", "delete", "traverse", "traverse_from"]
 
@@ -252,6 +253,32 @@ def _missing_body(miss, op, is_path, ki):
         # failed: nothing may have changed, then supply exactly the reported node and retry
         if _snapshot(t, db) != snap:
             return _fail(f"failed {opname} changed root, database or reference counts")
+        if CFG.get("after_fail") == "other" and not batch and opname in ("set", "delete"):
+            # instead of retrying: a DIFFERENT write on the same trie object, with every node available again.  A failed call
+            # that really left nothing behind cannot influence it: the result must be the canonical state of MODEL + that write
+            for hh in list(ORDER):
+                db.unhide(hh)
+            ok2, v2 = OTHERKEY, b"O" * 36
+            try:
+                t.set(ok2, v2)
+            except Exception as e:
+                return _fail(f"a different write after a failed {opname} raised {type(e).__name__}: {e}")
+            m4 = dict(MODEL)
+            m4[ok2] = v2
+            if t.root_hash != mpt.root_of(m4):
+                return _fail(f"root after a different write following a failed {opname} is not the canonical root")
+            if prune and not CFG.get("fresh"):
+                if dict(dict.items(db)) != mpt.db_of(m4) or hc.nz(t.ref_count) != mpt.ref_counts(m4):
+                    return _fail(f"a failed {opname} left something behind: after a different write the pruning db / counts are not exact")
+            for kq in list(MODEL) + [ok2]:
+                try:
+                    if t.get(kq) != m4[kq]:
+                        return _fail(f"after a failed {opname} and a different write, get({kq.hex()}) is wrong")
+                except Exception as e:
+                    return _fail(f"after a failed {opname} and a different write, get({kq.hex()}) raised {type(e).__name__}")
+            COUNTERS["paths"] += 1
+            COUNTERS["nontrivial"] += 1
+            return True
         if h in asked:
             return _fail(f"node {h.hex()[:12]} was asked for twice")
         asked.append(h)
